@@ -3,6 +3,7 @@
    quantifies over the instance, it is about the R instance of the model (exact arithmetic);
    float behaviour is measured by the correspondence check. *)
 From Coq Require Import ZArith List Reals Lra Lia Bool.
+From Coquelicot Require Import Coquelicot.
 From SV Require Import Base.Num Base.Outcome Model.Poly Model.Solvers Proofs.Bisect Proofs.Newton.
 Import ListNotations.
 Local Open Scope R_scope.
@@ -93,9 +94,12 @@ Check c07_zero_root : forall (f f' : R -> res R) x0 cap tol k xk,
   exists j xj, (1 <= j <= k)%nat /\ newton_from f f' x0 j = Ok xj /\ nrm f f' x0 cap tol = Ok xj.
 Print Assumptions c07_zero_root.
 
-(* PARTIAL convergence half: one body of the loop started to the right of a root r beyond which g, g' > 0 and
-   g'' >= 0 moves the iterate left without crossing r.  MISSING: the stopping rule fires within the budget
-   and the result is within degree*tol of r (oracle only). *)
+(* PARTIAL (general convex case): one body of the loop started to the right of a root r beyond which g, g' > 0 and
+   g'' >= 0 moves the iterate left without crossing r.  For real-rooted targets c * prod (x - r_i) the full convergence
+   half is proved below (c07_converges_to_extreme_root).  STILL LEFT TO THE ORACLE: the start left of the smallest
+   root (mirror image, not proved), an extreme root <= 0 (at 0 the relative step never becomes small and the exit
+   needs an exactly representable/underflowing root), general convex targets that are not products of real linear
+   factors, and all float effects. *)
 Theorem c07_monotone_partial : forall (p : spoly R) r tol cap (s s' : nstate R) b,
   let g := eval_simple p in let g1 := eval_simple (sd p) in let g2 := eval_simple (sd (sd p)) in
   g r = 0 -> (forall t, r < t -> 0 < g t /\ 0 < g1 t) -> (forall t, r <= t -> 0 <= g2 t) ->
@@ -110,6 +114,34 @@ Check c07_monotone_partial : forall (p : spoly R) r tol cap (s s' : nstate R) b,
   nr_body (s_eval_univariate p) (s_eval_univariate (sd p)) tol cap s = Ok (s', b) ->
   r <= ns_x s' < ns_x s.
 Print Assumptions c07_monotone_partial.
+
+(* rprod rs x = prod (x - r_i) and rdprod rs x = sum_j prod_{i<>j} (x - r_i) is its derivative *)
+Theorem c07_rdprod_is_derivative : forall (rs : list R) (x : R), is_derive (rprod rs) x (rdprod rs x).
+Proof. exact Proofs.Newton.rprod_is_derive. Qed.
+Check c07_rdprod_is_derivative : forall (rs : list R) (x : R), is_derive (rprod rs) x (rdprod rs x).
+Print Assumptions c07_rdprod_is_derivative.
+
+(* THE CONVERGENCE HALF in exact arithmetic: target g = c * prod (x - r_i) (all roots real, n = length rs >= 1 of
+   them, multiplicities allowed), derivative g' as above, largest root Rm > 0, start x0 > Rm, 0 < tol, and a budget
+   K + 1 < cap with 100 ((n-1)/n)^K (x0 - Rm) < tol * Rm (division-free below).  Then the solver returns Ok x with
+   Rm <= x and (x - Rm) * 100 <= (n - 1) * tol * x, i.e. the extreme root to within (degree-1) * tol percent of x.
+   Proof: g'/g = sum 1/(x - r_i) lies in [1/(x-Rm), n/(x-Rm)], so the step s obeys (x-Rm)/n <= s <= x-Rm: the
+   iterates stay right of Rm, contract by (1 - 1/n), and x' - Rm <= (n-1) s when the step test fires; for n = 1
+   the first step lands on Rm and is accepted as an exact root. *)
+Theorem c07_converges_to_extreme_root : forall (f f' : R -> res R) (c : R) (rs : list R) (Rm x0 tol : R) (cap K : nat),
+  (forall x, f x = Ok (c * rprod rs x)) -> (forall x, f' x = Ok (c * rdprod rs x)) ->
+  c <> 0 -> In Rm rs -> (forall r, In r rs -> r <= Rm) -> 0 < Rm -> 0 < tol -> Rm < x0 ->
+  (S K < cap)%nat ->
+  100 * (INR (length rs) - 1) ^ K * (x0 - Rm) < tol * Rm * INR (length rs) ^ K ->
+  exists x, nrm f f' x0 cap tol = Ok x /\ Rm <= x /\ (x - Rm) * 100 <= (INR (length rs) - 1) * tol * x.
+Proof. exact Proofs.Newton.c07_converges_to_extreme_root. Qed.
+Check c07_converges_to_extreme_root : forall (f f' : R -> res R) (c : R) (rs : list R) (Rm x0 tol : R) (cap K : nat),
+  (forall x, f x = Ok (c * rprod rs x)) -> (forall x, f' x = Ok (c * rdprod rs x)) ->
+  c <> 0 -> In Rm rs -> (forall r, In r rs -> r <= Rm) -> 0 < Rm -> 0 < tol -> Rm < x0 ->
+  (S K < cap)%nat ->
+  100 * (INR (length rs) - 1) ^ K * (x0 - Rm) < tol * Rm * INR (length rs) ^ K ->
+  exists x, nrm f f' x0 cap tol = Ok x /\ Rm <= x /\ (x - Rm) * 100 <= (INR (length rs) - 1) * tol * x.
+Print Assumptions c07_converges_to_extreme_root.
 
 (* regression of the repaired finding F-C07-STALE-100 (8dfb6bc): x^2 + 1 from 1 with tol = 200 (percent); the
    first iterate is 0 and no root, its relative change is INFINITY and the loop does NOT stop there
@@ -134,3 +166,10 @@ Example c07_nonvacuous_monotone :
   (forall t, 1 < t -> 0 < eval_simple px2m1 t /\ 0 < eval_simple (sd px2m1) t) /\
   (forall t, 1 <= t -> 0 <= eval_simple (sd (sd px2m1)) t).
 Proof. exact Proofs.Newton.c07_example_monotone_hyps. Qed.
+
+(* the hypotheses of c07_converges_to_extreme_root are satisfiable: (x-1)(x-2)(x-4) from 10, tol 1e-3 (percent),
+   cap 100, K = 30 - the solver returns the root 4 to within 2 * tol percent *)
+Example c07_nonvacuous_converges :
+  exists x, nrm (fun x => Ok (1 * rprod [1; 2; 4] x)) (fun x => Ok (1 * rdprod [1; 2; 4] x)) 10 100 (1 / 1000) = Ok x /\
+            4 <= x /\ (x - 4) * 100 <= 2 * (1 / 1000) * x.
+Proof. exact Proofs.Newton.c07_example_converges. Qed.
